@@ -1,6 +1,7 @@
 package nc
 
 import (
+	"go/types"
 	"strings"
 
 	"golang.org/x/tools/go/ssa"
@@ -358,6 +359,51 @@ func (c *Ctx) ruleCountingDiscipline(rule string) {
 						// Delete(candidates, i, i+1) with i the hit of the verifying search over those candidates
 						cut.Barriers[call] = true
 					}
+				}
+			}
+		}
+		// mark form: used := make([]bool, len(candidates)); a key is tried only when !used[i] and a match
+		// sets used[i] = true (i the range index of the scan over the candidates) - the key is out of the
+		// candidate set from then on
+		for b := range outer.Blocks {
+			for _, in := range b.Instrs {
+				st, ok := in.(*ssa.Store)
+				if !ok {
+					continue
+				}
+				ia, ok := st.Addr.(*ssa.IndexAddr)
+				if !ok || !isConst(o.Of(st.Val), "true") {
+					continue
+				}
+				ms, ok := ia.X.(*ssa.MakeSlice)
+				l2 := o.Loops.byIndex[ia.Index]
+				if !ok || l2 == nil || l2.RangeOf == nil || !isBool(ms.Type().Underlying().(*types.Slice).Elem()) {
+					continue
+				}
+				if la := lenArg(ms.Len); la == nil || !o.sameValue(la, l2.RangeOf) {
+					continue
+				}
+				// every verification under a candidate of that scan sits behind !used[i]
+				skipUsed := &Cond{Name: "candidate not used yet", PerIteration: true, Match: func(ft *Fact, _ *Origins) bool {
+					if ft.Kind != "bool" || ft.Pos {
+						return false
+					}
+					a := ft.A
+					return (a.K == "index" || a.K == "elem" || a.K == "lookup" || a.K == "deref") && strings.Contains(a.String(), "make:[]bool")
+				}}
+				allGuarded, nVer := true, 0
+				for lb := range l2.Blocks {
+					for _, in2 := range lb.Instrs {
+						if vc, ok := in2.(*ssa.Call); ok && strings.HasSuffix(c.P.Describe(vc).Name, "schnorr.(*Signature).Verify") {
+							nVer++
+							if ok2, _ := o.Requires(vc, skipUsed); !ok2 {
+								allGuarded = false
+							}
+						}
+					}
+				}
+				if allGuarded && nVer > 0 {
+					cut.Barriers[st] = true
 				}
 			}
 		}
